@@ -325,7 +325,12 @@ func CalculateRewards(
 		lastPoolID = poolID
 		// Normalize share
 		normalizedShare := rawShare / totalShare
-		totalPoolRewards := uint64(float64(pots.Rewards) * normalizedShare)
+		// float64 rounding (pots above 2^53, shares that sum to slightly
+		// more than 1) must never hand out more than what is left of the pot
+		totalPoolRewards := floatToUint64Capped(
+			float64(pots.Rewards)*normalizedShare,
+			pots.Rewards-totalDistributed,
+		)
 		poolRewardAmounts[poolID] = totalPoolRewards
 		totalDistributed += totalPoolRewards
 	}
@@ -461,10 +466,11 @@ func distributePoolRewards(
 
 	if totalPoolStake > 0 {
 		ownerStakeRatio := float64(ownerStake) / float64(totalPoolStake)
-		operatorRewards += uint64(
+		operatorRewards += floatToUint64Capped(
 			float64(
 				totalPoolRewards-poolCost,
-			) * (margin + (1.0-margin)*ownerStakeRatio),
+			)*(margin+(1.0-margin)*ownerStakeRatio),
+			totalPoolRewards-poolCost,
 		)
 	} else {
 		// If no stake, operator gets all rewards above cost
@@ -482,14 +488,15 @@ func distributePoolRewards(
 		for stakeKey, stake := range delegatorStake {
 			// Only reward registered stake keys
 			if snapshot.StakeRegistrations[stakeKey] {
-				reward := uint64(
+				reward := floatToUint64Capped(
 					float64(
 						stake,
-					) / float64(
+					)/float64(
 						totalPoolStake,
-					) * float64(
+					)*float64(
 						stakeholderRewardsTotal,
 					),
+					stakeholderRewardsTotal-assigned,
 				)
 				delegatorRewards[stakeKey] = reward
 				assigned += reward
@@ -507,6 +514,21 @@ func distributePoolRewards(
 		DelegatorRewards: delegatorRewards,
 		TotalRewards:     totalPoolRewards,
 	}
+}
+
+// floatToUint64Capped converts a non-negative float amount to uint64 without
+// ever exceeding limit. float64 cannot represent every lovelace amount above
+// 2^53, so a product that is mathematically <= limit can round to a larger
+// value; handing that out would make the distributed amounts exceed the pot
+// (and wrap around in the unsigned arithmetic that follows).
+func floatToUint64Capped(v float64, limit uint64) uint64 {
+	if !(v > 0) { // also covers NaN
+		return 0
+	}
+	if v >= float64(limit) {
+		return limit
+	}
+	return min(uint64(v), limit)
 }
 
 // marginFloat converts a GenesisRat margin to float64
